@@ -42,6 +42,7 @@ type runner struct {
 	fracOf    map[model.ID]string // learned from hints at quiescent points
 	fracSeen  map[string]bool
 	gone      map[string]bool // fractions observed (completely) gone after a restart
+	hadIndex  map[string]bool // fractions whose published sealed form (.index) was on disk in some boot image
 	forms     map[string]string
 	log       []string
 	states    map[string]bool
@@ -109,7 +110,7 @@ func Run(t *testing.T, c *Case, done func(*Result)) {
 		MaxSteps: c.MaxSteps,
 	}
 	if cfg.MaxSteps == 0 {
-		cfg.MaxSteps = 600000
+		cfg.MaxSteps = 1500000
 	}
 	cfg.IdleLimit = 5000 * time.Hour // clock jumps while the store is stopped are legitimate; liveness is judged per operation
 	cfg.OnEnd = func(s *verifsim.Sim) { done(r.finish(s)) }
@@ -388,6 +389,20 @@ func (r *runner) imageProbes() {
 		}
 		byFrac[name][suf] = sz
 	}
+	if r.hadIndex == nil {
+		r.hadIndex = map[string]bool{}
+	}
+	for p := range r.w.EverDurable(r.st.Node.Dir) {
+		base := p[strings.LastIndexByte(p, '/')+1:]
+		if strings.HasPrefix(base, "seq-db-") && strings.HasSuffix(base, ".index") {
+			r.hadIndex[strings.TrimSuffix(base, ".index")] = true
+		}
+	}
+	for name := range r.hadIndex {
+		if byFrac[name] == nil {
+			r.gone[name] = true
+		}
+	}
 	for name, fs := range byFrac {
 		_, docs := fs[".docs"]
 		_, meta := fs[".meta"]
@@ -402,6 +417,18 @@ func (r *runner) imageProbes() {
 				r.s.Probe("image_has_del")
 				r.gone[name] = true
 			}
+		}
+		// The published sealed form is removed by deletion only. A fraction that was sealed on disk at an
+		// earlier start (or at the last durable point of this incarnation) and has no .index any more is a
+		// fraction whose deletion has begun, whatever else is still lying around.
+		if r.hadIndex == nil {
+			r.hadIndex = map[string]bool{}
+		}
+		if index {
+			r.hadIndex[name] = true
+		} else if r.hadIndex[name] {
+			r.s.Probe("image_sealed_form_removed")
+			r.gone[name] = true
 		}
 		if (index && !sdocs && !docs) || (sdocs && !index && !meta) {
 			r.s.Probe("image_incomplete_sealed")
